@@ -278,6 +278,21 @@ pub fn run(ctx: &mut Ctx) {
                 Err(p) => ctx.violation(&format!("type/panic/{}", p.signature()), &format!("{:?}", p), jhex(&te)),
             }
         }
+        match trap::guard(|| te.get_type()) {
+            Ok(r) => {
+                ctx.count("get_type_checks");
+                let ok = match (type_assertions, &r) {
+                    (1, Ok(t)) => type_digests.contains(&d32(t)),
+                    (1, Err(_)) => false,
+                    (_, Ok(_)) => false,
+                    (_, Err(_)) => true,
+                };
+                if !ok {
+                    ctx.violation("type/get_type", &format!("get_type() is {:?} with {} isA assertions", r.as_ref().map(|_| "Ok").map_err(|e| e.to_string()), type_assertions), jhex(&te));
+                }
+            }
+            Err(p) => ctx.violation(&format!("type/panic/{}", p.signature()), &format!("{:?}", p), jhex(&te)),
+        }
         match trap::guard(|| te.types()) {
             Ok(ts) => {
                 if ts.len() != type_assertions || ts.iter().map(d32).collect::<HashSet<_>>() != type_digests {
